@@ -357,7 +357,8 @@ def run(cx: Cx):
     from .common import include_premises
     include_premises(cx, ['C01'], 'listed systems are registered with their declared scheduling by add_system')
     include_premises(cx, ['C02'], 'the declared start / end / frequency are the window the scheduler uses')
-    include_premises(cx, ['C04'], 'listed agents are added by Environment.add_agent', only=lambda o: o.function.endswith('Environment.add_agent'))
+    include_premises(cx, ['C04'], 'listed agents are added by Environment.add_agent under the identifier their decode() gave them',
+                     only=lambda o: (o.function or '').endswith(('Environment.add_agent', 'Agent.__init__')))
 
 
 def _receiver_read_at(evs, i, e):
